@@ -6,7 +6,8 @@ from hv.worlds import profile
 CFG = hprop.HistoryProperty(
     prop="C02",
     monitors=lambda: [C02Counts()],
-    profile=profile(nv=(2, 7), socs=[0.0005, 0.003, 0.05, 0.3, 0.8, 0.97, 0.995], n_requests=(0, 12), fleets=[0, 0, 0, 2], max_plugs=2, stations=(1, 2)),
+    profile=profile(nv=(2, 7), socs=[0.0005, 0.003, 0.05, 0.3, 0.8, 0.97, 0.985, 0.995], n_requests=(0, 12), fleets=[0, 0, 0, 2], max_plugs=2, stations=(1, 2),
+                    soc_limits=[1.0, 0.8], max_ptypes=2),
     nontrivial=lambda f: {"arrival_at_full_station", "exit_resource_by_instruction", "rejected_from_resource_holder"} <= f,
     rule=("stateful histories (Hypothesis RuleBasedStateMachine) over generated file-based worlds with 1-2 plugs per type and "
           "1-2 stalls: adversarial instruction directives resolved against the live state + built-in generators + steps; after "
@@ -18,9 +19,9 @@ CFG = hprop.HistoryProperty(
         "a base's station is co-located with the base, as the input documentation says",
         "PYTHONHASHSEED pinned to 0 for the check process",
     ],
-    quick=(16, 60, 30), thorough=(16, 1500, 60), probes=True,
+    quick=(16, 100, 35), thorough=(16, 2000, 60), probes=True,
     # bias towards contention: send vehicles to stations/bases (preferably full ones), pull them out again
-    instr_bias={"kinds": [2, 2, 2, 2, 3, 3, 4, 4, 5, 6, 6, 0, 0, 1, 7, 8], "tclasses": [0, 1, 1, 3, 3, 3, 2, 4, 6]},
+    instr_bias={"rush": True, "kinds": [2, 2, 2, 2, 3, 3, 4, 4, 5, 6, 6, 0, 0, 1, 7, 8], "tclasses": [0, 1, 1, 3, 3, 3, 2, 4, 6]},
 )
 RULE, ASSUMPTIONS = CFG.rule, CFG.assumptions
 FLOORS = {"quick": {"flag:arrival_at_full_station": 5, "flag:exit_resource_by_instruction": 20}, "thorough": {"flag:arrival_at_full_station": 50}}
